@@ -372,6 +372,7 @@ def spawn_workers(prop, tier, batch_seed, nworkers, nruns, deadline_s, mode='run
     outs.append(out)
     cmd = [PY, os.path.join(VERIF, 'sim', 'worker.py'), prop, tier, str(batch_seed), str(w), str(nworkers), str(nruns), str(deadline_s), out, mode]
     errf = open(os.path.join(scratch, f'w{w}.err'), 'w')
+    extra_env = dict(extra_env or {}, VERIF_WORKER_SCRATCH=os.path.join(scratch, f'ws{w}'))
     procs.append((subprocess.Popen(cmd, env=env_for_worker(hashseed, extra_env), stdout=errf, stderr=subprocess.STDOUT, cwd=VERIF), errf))
   hard = time.time() + deadline_s * 3 + 240
   results = []
@@ -460,6 +461,6 @@ def match_known(prop, viol, known):
     if viol['kind'] not in f['kind']:
       continue
     sig = viol.get('signature') or {}
-    if all(sig.get(k) == v for k, v in f.get('signature', {}).items()):
+    if all((sig.get(k) in v) if isinstance(v, list) else (sig.get(k) == v) for k, v in f.get('signature', {}).items()):
       return f
   return None
